@@ -137,6 +137,49 @@ theorem rejected_only_if_invalid (s : Schema) (d : Document) (hs : SchemaOk s) (
   cases h
   exact hne rfl
 
+/-- **C02 without a hypothesis on the merging rule, for the other 23 conditions**: a document that
+    violates a condition other than field merging makes some rule of the default plan fire -/
+theorem violates_fires (s : Schema) (d : Document) (hs : SchemaOk s) (hd : DocOk d) (r : RuleId)
+    (h1 : r ≠ .overlappingFieldsCanBeMerged) (hv : Violates r s d) : ∃ r', fires r' s d := by
+  by_cases h2 : r = .noFragmentsCycle
+  · subst h2
+    by_cases hn : (d.fragments.map (·.name)).Nodup
+    · exact ⟨_, (C06.noFragmentsCycle_iff s d hs.queryRoot hn).2 hv⟩
+    · exact ⟨.uniqueFragmentNames, (C06.uniqueFragmentNames_iff s d hs.queryRoot).2 hn⟩
+  by_cases h3 : r = .valuesOfCorrectType
+  · subst h3
+    by_cases hvt : VarTypesGood s d
+    · exact ⟨_, (C08.valuesOfCorrectType_iff_wf s d hs.inputsClosed hs.argsGood hvt).2 hv⟩
+    · have : ∃ o, Definition.op o ∈ d ∧ ∃ v ∈ o.vars, ¬ GoodTy s v.ty := by
+        refine Classical.byContradiction fun hc => hvt ?_
+        intro o ho v hv'
+        exact Classical.byContradiction fun hg => hc ⟨o, ho, v, hv', hg⟩
+      obtain ⟨o, ho, v, hv', hbad⟩ := this
+      have ho' := (mem_operations_iff d o).2 ho
+      obtain ⟨hok, hni⟩ := hd o ho' v hv'
+      cases ht : s.typeByName v.ty.inner with
+      | none =>
+        refine ⟨.knownTypeNames, (C06.knownTypeNames_iff s d hs.queryRoot).2 (Or.inr (Or.inr ⟨v, ?_, ?_⟩))⟩
+        · exact (C07.enter_varDef_in_walk s d hs.queryRoot v).2 ⟨o, ho', hv'⟩
+        · rintro (h | h)
+          · rw [ht] at h; cases h
+          · exact hni h
+      | some t =>
+        cases hi : t.isInput with
+        | true => exact absurd ⟨hok, by simp [Schema.isInputName, ht, hi]⟩ hbad
+        | false =>
+          exact ⟨.variablesAreInputTypes, (C07.variablesAreInputTypes_iff s d hs.queryRoot).2 ⟨o, ho', v, hv', t, ht, hi⟩⟩
+  exact ⟨r, (fires_iff_violates_basic s d hs r h1 h2 h3).2 hv⟩
+
+/-- hence the default plan returns at least one error -/
+theorem invalid_rejected (s : Schema) (d : Document) (hs : SchemaOk s) (hd : DocOk d) (r : RuleId)
+    (h1 : r ≠ .overlappingFieldsCanBeMerged) (hv : Violates r s d) :
+    ∃ errs, validate s d Gen.defaultPlan = some errs ∧ errs ≠ [] := by
+  refine ⟨_, C03.no_panic s d hs.queryRoot _, fun he => ?_⟩
+  obtain ⟨r', hr'⟩ := violates_fires s d hs hd r h1 hv
+  have := (accepted_iff_none_fires s d hs.queryRoot).1 (by rw [C03.no_panic s d hs.queryRoot, he])
+  exact this r' hr'
+
 /-! ### the hypotheses are satisfiable: `{ a a }` against `type Query { a: Int }`
     (ids Query=0 Int=6 a=100) meets them, with a same-key pair for the merging condition -/
 
